@@ -378,6 +378,34 @@ def none_job(ck, prog, natbin, quick):
     native.close()
 
 
+def flag_unit_job(ck, prog, natbin):
+    """`Flag` and `()`, the two word-only targets, run on a symbolic item for C07: never a panic (Flag builds its error by running `()`'s
+    conversion and unwrapping the Err, which relies on `()` rejecting every non-word form)"""
+    from props.recv_common import replay_panic
+    native = Native(natbin)
+    for ename, rq in (("entry_flag_meta", "flag_meta"), ("entry_unit_meta", "unit_meta")):
+        I = Interp(prog, models.all_models(OPTS), Pol(), timeout_ms=ck.timeout_ms)
+        e = prog.entry(ename)
+        leaves = I.explore(e, [Lazy("item", e.local_tys[1])])
+        ck.absorb(I, leaves, ename)
+        ck.check_exhaustive(I, leaves, ename)
+        for l in leaves:
+            txt = render_item(l, None, "item*", False)
+            req = None if txt is None else "(%s %s)" % (rq, sx_str(txt))
+            if l.status == "panicked":
+                replay_panic(ck, native, ename, l, req, {"crate": "hconv"})
+                continue
+            if l.status != "returned":
+                ck.obligations += 1
+                ck.engine("%s: leaf %s %s" % (ename, l.status, str(l.info or l.panics)[:200]))
+                continue
+            # which forms these targets accept is stated by no property (C12 speaks about Flag only for the absent item): every
+            # returned leaf counts, whatever it returns
+            ck.reach("wordonly:returned")
+            ck.ok()
+    native.close()
+
+
 def prepare(ck):
     """configure `ck` and return the list of jobs of this property's exploration"""
     ck.crate = "hconv"
@@ -397,6 +425,8 @@ def prepare(ck):
             ck.programs.add("%s<%s>" % (w, t))
             jobs.append(lambda sub, w=w, t=t: pair_job(sub, prog, natbin, w, t, quick))
     jobs.append(lambda sub: none_job(sub, prog, natbin, quick))
+    ck.programs.add("Flag / () (word-only targets)")
+    jobs.append(lambda sub: flag_unit_job(sub, prog, natbin))
     return jobs
 
 
